@@ -28,6 +28,22 @@
 (*  (d) a follower's holds are a subset of the leader's and contain every  *)
 (*      hold the leader has logged, once it reports the leader's position  *)
 (*                                                                         *)
+(*  (e) unsolicited frames on an upstream link (the EXPRIED notice the      *)
+(*      leader pushes down the connection a hold was taken on, carrying the *)
+(*      id of a request it has already answered): exactly ONE leader frame  *)
+(*      is the answer of a request - what a client is told for a LATER      *)
+(*      request is the leader's frame for THAT request, never the frame of  *)
+(*      another one (reply-of-another-request); a binary client gets the    *)
+(*      notice as a further frame of that very request with all fields      *)
+(*      equal (relayed-notice-differs, notice-not-from-leader,              *)
+(*      notice-not-relayed)                                                 *)
+(*                                                                         *)
+(* Holds may expire: a hold the leader reported expired (notice seen on an  *)
+(* upstream link or by a binary client) leaves the monitor's picture; a     *)
+(* hold whose expiry time may have passed without such evidence excuses a   *)
+(* contradiction of the engine clauses (the key is no longer judged) - the  *)
+(* expiry times themselves are C06's matter.                                *)
+(*                                                                         *)
 (* Agnostic where the statement is silent: which of refuse / forward is    *)
 (* chosen; the code and text of a refusal; timing; the fate of requests    *)
 (* that were in flight when their upstream connection broke (their keys    *)
@@ -69,7 +85,7 @@ Report(mm, p, code, detail) ==
 Check(mm, cond, p, code, detail) == IF cond THEN mm ELSE Report(mm, p, code, detail)
 
 M0 == [ reqs |-> EmptyFn, ups |-> EmptyFn, upseen |-> {}, holds |-> EmptyFn, taint |-> {}, roles |-> EmptyFn, gone |-> {}, frozen |-> FALSE,
-        vals |-> EmptyFn, maxd |-> EmptyFn, upof |-> EmptyFn, lsnap |-> <<>>, lvals |-> <<>>, vkeys |-> {}, ldr |-> "L", nv |-> 0, tr |-> 0, name |-> "" ]
+        vals |-> EmptyFn, maxd |-> EmptyFn, upof |-> EmptyFn, upnode |-> EmptyFn, notes |-> EmptyFn, closed |-> {}, lsnap |-> <<>>, lvals |-> <<>>, vkeys |-> {}, ldr |-> "L", nv |-> 0, tr |-> 0, name |-> "" ]
 
 HoldsOf(mm, d, k) == IF <<d, k>> \in DOMAIN mm.holds THEN mm.holds[<<d, k>>] ELSE <<>>
 DepthSum(H) == FoldLeft(LAMBDA acc, h : acc + h.depth, 0, H)
@@ -79,6 +95,14 @@ RemoveIdx(S, i) == SubSeq(S, 1, i - 1) \o SubSeq(S, i + 1, Len(S))
 \* C01 as stated (same operator as MonLock)
 AdmissibleStmt(H, c) == \/ DepthSum(H) = 0
                         \/ DepthSum(H) <= c /\ DepthSum(H) <= Head(H).cnt
+
+\* a hold whose expiry time may have passed (no notice seen yet): contradictions on its key are excused
+MayExp(H, ts) == \E i \in 1..Len(H) : ts >= H[i].dlo
+\* the leader reported the hold that request `id` was granted into (or updated) as expired
+ExpireHold(mm, d, k, id) ==
+    LET H == HoldsOf(mm, d, k)
+        I == {i \in 1..Len(H) : id \in H[i].grids}
+    IN IF I = {} THEN mm ELSE [mm EXCEPT !.holds = SetFn(@, <<d, k>>, RemoveIdx(H, Min(I)))]
 
 RoleOf(mm, n) == IF n \in DOMAIN mm.roles THEN mm.roles[n] ELSE (IF n = "L" THEN "leader" ELSE IF n = "G" THEN "config" ELSE "follower")
 \* the engine that decides a request: the node itself while it leads, else the leader of its set (mm.ldr)
@@ -100,7 +124,7 @@ StepReq(mm, e) ==
         \* two immediate requests in flight on one key at once (only under hold / freeze): their order at the leader is unknown
         clash == {id \in OpenOn(mm, d, e.key, 0) : mm.reqs[id].to = 0} # {} /\ e.cmd \in {"L", "U"} /\ e.to = 0
         r == [id |-> e.id, conn |-> e.conn, node |-> e.node, proto |-> e.proto, cmd |-> e.cmd, key |-> e.key, lid |-> e.lid, flag |-> e.flag,
-              tf |-> e.tf, to |-> e.to, ef |-> e.ef, ex |-> e.ex, cnt |-> e.cnt, rc |-> e.rc, val |-> e.val, first |-> e.first, len |-> e.len,
+              tf |-> e.tf, to |-> e.to, ef |-> e.ef, ex |-> e.ex, exlo |-> e.exlo, exhi |-> e.exhi, cnt |-> e.cnt, rc |-> e.rc, val |-> e.val, first |-> e.first, len |-> e.len,
               uprid |-> e.uprid, tap |-> e.tap, ts |-> e.ts, st |-> "open", dom |-> d, nfl |-> 0, role |-> RoleOf(mm, e.node), broken |-> FALSE,
               nolead |-> (e.node \in mm.gone \/ RoleOf(mm, e.node) = "config"), infreeze |-> (mm.frozen /\ RoleOf(mm, e.node) # "leader")]
     IN [mm EXCEPT !.reqs = SetFn(@, e.id, r), !.taint = IF clash THEN @ \cup {<<d, e.key>>} ELSE @]
@@ -110,15 +134,32 @@ StepReq(mm, e) ==
 \* latest request written to an upstream)
 LaterForwarded(mm, id) == {x \in DOMAIN mm.reqs : x > id /\ mm.reqs[x].conn = mm.reqs[id].conn /\ mm.reqs[x].uprid \in DOMAIN mm.upof
                                                   /\ mm.reqs[id].uprid \in DOMAIN mm.upof /\ mm.upof[mm.reqs[x].uprid] = mm.upof[mm.reqs[id].uprid]} # {}
-Break(mm, n) == [mm EXCEPT !.reqs = [id \in DOMAIN @ |-> IF @[id].node = n /\ @[id].st = "open" THEN [@[id] EXCEPT !.broken = TRUE] ELSE @[id]]]
+ExcuseNotes(N) == [i \in 1..Len(N) |-> [N[i] EXCEPT !.exc = TRUE]]
+Break(mm, n) == [mm EXCEPT !.reqs = [id \in DOMAIN @ |-> IF @[id].node = n /\ @[id].st = "open" THEN [@[id] EXCEPT !.broken = TRUE] ELSE @[id]],
+                           !.notes = [x \in DOMAIN @ |-> IF x \in DOMAIN mm.upnode /\ mm.upnode[x] = n THEN ExcuseNotes(@[x]) ELSE @[x]]]
 
-StepUpReq(mm, e) == [mm EXCEPT !.upseen = @ \cup {e.rid}, !.upof = SetFn(@, e.rid, e.up)]
+StepUpReq(mm, e) == [mm EXCEPT !.upseen = @ \cup {e.rid}, !.upof = SetFn(@, e.rid, e.up), !.upnode = SetFn(@, e.rid, e.node)]
 \* one upstream connection of node n broke: the open requests IT carried
 BreakUp(mm, n, u) == [mm EXCEPT !.reqs = [id \in DOMAIN @ |-> IF @[id].node = n /\ @[id].st = "open" /\ @[id].uprid \in DOMAIN mm.upof /\ mm.upof[@[id].uprid] = u
-                                                              THEN [@[id] EXCEPT !.broken = TRUE] ELSE @[id]]]
+                                                              THEN [@[id] EXCEPT !.broken = TRUE] ELSE @[id]],
+                                !.notes = [x \in DOMAIN @ |-> IF x \in DOMAIN mm.upof /\ mm.upof[x] = u /\ x \in DOMAIN mm.upnode /\ mm.upnode[x] = n
+                                                               THEN ExcuseNotes(@[x]) ELSE @[x]]]
 \* (a grant seen on the wire also tells how full the key has been, whether or not the client ever hears of it)
-StepUpReply(mm, e) == [mm EXCEPT !.ups = SetFn(@, e.rid, [res |-> e.res, lid |-> e.lid, key |-> e.key, lc |-> e.lc, cnt |-> e.cnt, lrc |-> e.lrc, rc |-> e.rc, datap |-> e.datap]),
-                                 !.maxd = IF e.ct = 1 /\ e.res = SUCCED THEN SetFn(@, e.key, Max({e.lc, IF e.key \in DOMAIN @ THEN @[e.key] ELSE 0})) ELSE @]
+\* The FIRST frame the leader sends with a request id is its reply to that request.  A further frame with the same id is
+\* unsolicited (the EXPRIED notice of the hold that request was granted into): it is kept apart - it is not the answer of any
+\* request - and the expired hold leaves the picture of the deciding engine.
+ReqOfUp(mm, rid) == {id \in DOMAIN mm.reqs : mm.reqs[id].uprid = rid}
+StepUpReply(mm, e) ==
+    LET fr == [res |-> e.res, lid |-> e.lid, key |-> e.key, lc |-> e.lc, cnt |-> e.cnt, lrc |-> e.lrc, rc |-> e.rc, datap |-> e.datap] IN
+    IF e.rid \notin DOMAIN mm.ups
+    THEN [mm EXCEPT !.ups = SetFn(@, e.rid, fr),
+                    !.maxd = IF e.ct = 1 /\ e.res = SUCCED THEN SetFn(@, e.key, Max({e.lc, IF e.key \in DOMAIN @ THEN @[e.key] ELSE 0})) ELSE @]
+    ELSE LET old == IF e.rid \in DOMAIN mm.notes THEN mm.notes[e.rid] ELSE <<>>
+             m1  == [mm EXCEPT !.notes = SetFn(@, e.rid, Append(old, [fr |-> fr, dlv |-> FALSE, exc |-> FALSE]))]
+             Q   == ReqOfUp(mm, e.rid)
+         IN IF e.res = EXPRIED /\ Q # {}
+            THEN LET q == mm.reqs[CHOOSE id \in Q : TRUE] IN ExpireHold(m1, q.dom, q.key, q.id)
+            ELSE m1
 
 -----------------------------------------------------------------------------
 \* engine effects of a reply that was decided by an engine (domain d)
@@ -136,8 +177,9 @@ LockReply(mm, e, r, d, k) ==
     LET H   == HoldsOf(mm, d, k)
         lid == IF r.lid = 0 THEN e.lid ELSE r.lid
         i   == IdxOfLid(H, lid)
-        ou  == OpenUnlocks(mm, d, k, r.id) # {}
-        ol  == OpenLocks(mm, d, k, r.id) # {}
+        mx  == MayExp(H, e.ts)
+        ou  == OpenUnlocks(mm, d, k, r.id) # {} \/ mx
+        ol  == OpenLocks(mm, d, k, r.id) # {} \/ mx
     IN
     IF e.res = SUCCED
     THEN IF r.ex = 0 THEN mm
@@ -145,7 +187,7 @@ LockReply(mm, e, r, d, k) ==
          THEN LET m1 == Judge(mm, AdmissibleStmt(H, r.cnt), ou, d, k, "grant-exceeds-count",
                               [rid |-> r.id, node |-> r.node, key |-> k, lid |-> lid, cnt |-> r.cnt, outstanding |-> DepthSum(H)])
                   H2 == Append(H, [lid |-> lid, depth |-> 1, cnt |-> r.cnt, rc |-> r.rc, aof |-> Bit(r.ef, ZERO_AOF),
-                                   dlo |-> r.ts + r.ex - 2, dhi |-> e.ts + r.ex + 2])
+                                   dlo |-> r.ts + r.exlo - 2, dhi |-> e.ts + r.exhi + 2, grids |-> {r.id}])
                   m2 == Judge(m1, e.lc = DepthSum(H2) /\ e.lrc = 1, ou \/ ol, d, k, "reply-count-wrong",
                               [rid |-> r.id, node |-> r.node, lc |-> e.lc, lrc |-> e.lrc, truth |-> DepthSum(H2)])
               IN [m2 EXCEPT !.holds = SetFn(@, <<d, k>>, H2), !.maxd = SetFn(@, k, Max({DepthSum(H2), IF k \in DOMAIN @ THEN @[k] ELSE 0}))]
@@ -153,8 +195,8 @@ LockReply(mm, e, r, d, k) ==
                   \* (a request that may have been QUEUED and is granted while its LockId already holds is finding A12, a C02
                   \*  matter: not judged here - the excuse makes the key unjudged from here on)
                   m1 == Judge(mm, h.depth <= r.rc, ou \/ ol \/ r.to > 0, d, k, "relock-beyond-rcount", [rid |-> r.id, node |-> r.node, lid |-> lid, depth |-> h.depth, rc |-> r.rc])
-                  H2 == [H EXCEPT ![i] = [h EXCEPT !.depth = @ + 1, !.cnt = r.cnt, !.rc = r.rc, !.aof = @ \/ Bit(r.ef, ZERO_AOF),
-                                                  !.dlo = r.ts + r.ex - 2, !.dhi = e.ts + r.ex + 2]]
+                  H2 == [H EXCEPT ![i] = [h EXCEPT !.depth = @ + 1, !.cnt = r.cnt, !.rc = r.rc, !.aof = @,      \* (a re-lock does not log an unlogged hold at once: UpdateLockedLock only sets aofTime)
+                                                  !.dlo = r.ts + r.exlo - 2, !.dhi = e.ts + r.exhi + 2, !.grids = @ \cup {r.id}]]
                   m2 == Judge(m1, e.lc = DepthSum(H2) /\ e.lrc = h.depth + 1, ou \/ ol, d, k, "reply-count-wrong",
                               [rid |-> r.id, node |-> r.node, lc |-> e.lc, lrc |-> e.lrc, truth |-> DepthSum(H2)])
               IN [m2 EXCEPT !.holds = SetFn(@, <<d, k>>, H2), !.maxd = SetFn(@, k, Max({DepthSum(H2), IF k \in DOMAIN @ THEN @[k] ELSE 0}))]
@@ -163,11 +205,12 @@ LockReply(mm, e, r, d, k) ==
          \* now (an expiry change of at most 2 s may have been ignored: the deadline window then covers both)
          LET j  == IdxOfLid(H, e.lid)
              h  == H[j]
-             nlo == r.ts + r.ex - 2
-             nhi == e.ts + r.ex + 2
+             nlo == r.ts + r.exlo - 2
+             nhi == e.ts + r.exhi + 2
              near == (nlo <= h.dhi + 2) /\ (h.dlo <= nhi + 2)
              certain == e.lid = r.lid /\ ~ou /\ ~ol
-             H2 == [H EXCEPT ![j] = [h EXCEPT !.cnt = r.cnt, !.rc = r.rc,
+             \* (UpdateLockedLock makes THIS request the hold's command: its id travels in the expiry notice)
+             H2 == [H EXCEPT ![j] = [h EXCEPT !.cnt = r.cnt, !.rc = r.rc, !.grids = @ \cup {r.id},
                                               !.dlo = IF ~certain THEN 0 ELSE IF near THEN Min({@, nlo}) ELSE nlo,
                                               !.dhi = IF ~certain THEN 2000000000 ELSE IF near THEN Max({@, nhi}) ELSE nhi]]
          IN [mm EXCEPT !.holds = SetFn(@, <<d, k>>, H2)]
@@ -182,7 +225,7 @@ UnlockReply(mm, e, r, d, k) ==
         \* (unlock-first releases the OLDEST hold when the requester holds nothing: the reply names it)
         lid == IF r.lid = 0 \/ Bit(r.flag, UF_FIRST) THEN e.lid ELSE r.lid
         i   == IdxOfLid(H, lid)
-        others == OpenOn(mm, d, k, r.id) # {}
+        others == OpenOn(mm, d, k, r.id) # {} \/ MayExp(H, e.ts)
     IN
     IF e.res = SUCCED
     THEN IF i = 0
@@ -198,7 +241,7 @@ UnlockReply(mm, e, r, d, k) ==
 
 ValueReply(mm, e, r, decided) ==
     IF r.cmd = "S"
-    THEN IF e.res = SUCCED /\ decided THEN [mm EXCEPT !.vals = SetFn(@, r.key, [known |-> TRUE, nil |-> FALSE, val |-> r.val])]
+    THEN IF e.res = SUCCED /\ decided THEN [mm EXCEPT !.vals = SetFn(@, r.key, [known |-> (r.ex = 0), nil |-> FALSE, val |-> r.val])]    \* (a value set with an expiry may be gone later: C15's matter)
          ELSE IF r.uprid # 0 THEN [mm EXCEPT !.vals = SetFn(@, r.key, [known |-> FALSE, nil |-> FALSE, val |-> ""])] ELSE mm
     ELSE IF r.cmd = "D"
     THEN IF e.res = SUCCED /\ decided THEN [mm EXCEPT !.vals = SetFn(@, r.key, [known |-> TRUE, nil |-> TRUE, val |-> ""])]
@@ -228,6 +271,36 @@ SameAsLeader(e, r, u) ==
     ELSE IF r.cmd = "D" THEN (e.res = SUCCED) = (u.res = SUCCED)
     ELSE TRUE
 
+\* all fields of what a client received equal to a leader frame u (a text reply does not show the key)
+FrameEq(e, r, u) == /\ e.res = u.res /\ e.lid = u.lid /\ e.lc = u.lc /\ e.cnt = u.cnt /\ e.lrc = u.lrc /\ e.rc = u.rc /\ e.datap = u.datap
+                    /\ (r.proto = "text" \/ e.key = u.key)
+\* leader frames of OTHER requests that crossed an upstream link of the same node and equal what the client was told for request r:
+\* unsolicited ones (notices) and replies.  A SET / DEL style text reply shows the result code only: matched against notices.
+ForeignNotes(mm, e, r) == {x \in DOMAIN mm.notes : x # r.uprid /\ x \in DOMAIN mm.upnode /\ mm.upnode[x] = r.node
+                                                   /\ \E i \in 1..Len(mm.notes[x]) :
+                                                         IF r.cmd \in {"L", "U"} THEN FrameEq(e, r, mm.notes[x][i].fr)
+                                                         ELSE e.res = EXPRIED /\ mm.notes[x][i].fr.res = EXPRIED}
+ForeignReplies(mm, e, r) == {x \in DOMAIN mm.ups : x # r.uprid /\ x \in DOMAIN mm.upnode /\ mm.upnode[x] = r.node
+                                                   /\ r.cmd \in {"L", "U"} /\ FrameEq(e, r, mm.ups[x])}
+
+\* a further frame for a request that is already answered
+StepSecond(mm, m1, e, r, d, k) ==
+    LET m2  == Check(m1, e.res = EXPRIED, "C10", "second-reply", [rid |-> e.rid, res |-> e.res])
+        fwd == r.tap /\ r.role # "leader" /\ r.uprid # 0        \* the request was answered by forwarding
+        N   == IF r.uprid \in DOMAIN mm.notes THEN mm.notes[r.uprid] ELSE <<>>
+        I   == {i \in 1..Len(N) : ~N[i].dlv}
+        J   == {i \in I : FrameEq(e, r, N[i].fr)}
+        got == [res |-> e.res, lid |-> e.lid, key |-> e.key, lc |-> e.lc, cnt |-> e.cnt, lrc |-> e.lrc, rc |-> e.rc, datap |-> e.datap]
+        Mark(mx, i) == [mx EXCEPT !.notes = SetFn(@, r.uprid, [N EXCEPT ![i].dlv = TRUE])]
+    IN IF e.res # EXPRIED THEN m2        \* (not an expiry notice: a second reply, reported above)
+       ELSE IF ~fwd
+       THEN \* decided by the node it was sent to: an EXPRIED notice of a granted lock is legitimate and ends the hold
+            ExpireHold(m2, d, k, r.id)
+       ELSE \* through a non-leader: the further frame must be a notice the LEADER sent for that very request, all fields equal
+            IF J # {} THEN ExpireHold(Mark(m2, Min(J)), d, k, r.id)
+            ELSE IF I # {} THEN Mark(Report(m2, "C10", "relayed-notice-differs", [rid |-> r.id, node |-> r.node, conn |-> r.conn, got |-> got, leader |-> N[Min(I)].fr]), Min(I))
+            ELSE Report(m2, "C10", "notice-not-from-leader", [rid |-> r.id, node |-> r.node, conn |-> r.conn, got |-> got, leader_frames_for_this_request |-> Len(N) + 1])
+
 StepReply(mm, e) ==
     IF e.rid \notin DOMAIN mm.reqs
     THEN Report(mm, "C10", "reply-with-unknown-request-id", [conn |-> e.conn, rid |-> e.rid, res |-> e.res])
@@ -241,7 +314,7 @@ StepReply(mm, e) ==
     IN
     IF r.st = "done"
     THEN \* an EXPRIED notice for a granted lock is legitimate; anything else is a second reply
-         Check(m1, e.res = EXPRIED, "C10", "second-reply", [rid |-> e.rid, res |-> e.res])
+         StepSecond(mm, m1, e, r, d, k)
     ELSE
     LET m2 == [m1 EXCEPT !.reqs[e.rid].st = "done"]
         own   == r.role = "leader" \/ (~r.tap /\ RoleOf(mm, r.node) = "leader")     \* decided by the node it was sent to
@@ -280,9 +353,25 @@ StepReply(mm, e) ==
               ELSE \* neither the leader's reply nor a refusal nor the fast path: the node answered from its own state
                    Report(m2, "C10", "non-leader-answered-on-its-own", [rid |-> r.id, node |-> r.node, conn |-> r.conn, proto |-> r.proto, cmd |-> r.cmd, key |-> k,
                                                                        flag |-> r.flag, timeout |-> r.to, rcount |-> r.rc, res |-> e.res, lc |-> e.lc, forwarded |-> (r.uprid # 0)])
+        \* (e) the answer of a request is the leader's frame for THAT VERY request: when what the client was told is none of
+        \* refusal / the leader's reply / the fast path (one of the reports above) AND equals a frame the leader sent for
+        \* ANOTHER request over this node, the node handed out the frame of another request (first of all: an unsolicited notice)
+        bad == ~own /\ r.cmd # "G" /\ r.tap /\ ~same /\ ~Refusal(e) /\ (e.res = SUCCED \/ hasUp \/ (~FastPath(mm, r, e) /\ ~FirstShort(r)))
+        FN  == ForeignNotes(mm, e, r)
+        FR  == ForeignReplies(mm, e, r)
+        m3b == IF bad /\ (FN \cup FR) # {}
+               THEN LET x == IF FN # {} THEN Min(FN) ELSE Min(FR)
+                        Q == ReqOfUp(mm, x)
+                    IN Report(m3, "C10", "reply-of-another-request",
+                              [rid |-> r.id, node |-> r.node, conn |-> r.conn, proto |-> r.proto, cmd |-> r.cmd, key |-> k,
+                               got |-> [res |-> e.res, lid |-> e.lid, lc |-> e.lc, lrc |-> e.lrc],
+                               is_the_leaders_frame_for_request |-> IF Q = {} THEN 0 ELSE Min(Q), upstream_request_id |-> x,
+                               unsolicited_notice |-> (FN # {}),
+                               leader_reply_for_this_request |-> IF hasUp THEN u.res ELSE 0 - 9])
+               ELSE m3
         \* requests whose fate at the leader is unknown: stop judging the key
         unknownFate == ~decided /\ r.uprid # 0 /\ r.cmd \in {"L", "U"}
-        m4 == IF unknownFate THEN [m3 EXCEPT !.taint = @ \cup {<<d, k>>}] ELSE m3
+        m4 == IF unknownFate THEN [m3b EXCEPT !.taint = @ \cup {<<d, k>>}] ELSE m3b
         \* (b) engine effects of decided replies
         m5 == IF ~decided THEN (IF r.cmd \in {"S", "D"} THEN ValueReply(m4, e, r, FALSE) ELSE m4)
               ELSE IF r.cmd = "L" THEN LockReply(m4, e, r, d, k)
@@ -308,6 +397,11 @@ StepUnanswered(mm, e) ==
 StepAbandoned(mm, e) ==
     IF e.rid \notin DOMAIN mm.reqs THEN mm ELSE
     LET r == mm.reqs[e.rid] IN [mm EXCEPT !.reqs[e.rid].st = "done", !.taint = IF r.cmd \in {"L", "U"} THEN @ \cup {<<r.dom, r.key>>} ELSE @]
+\* a client connection was closed by the driver: notices of its requests have nobody to go to
+StepClosed(mm, e) ==
+    LET X == {x \in DOMAIN mm.notes : \E id \in ReqOfUp(mm, x) : mm.reqs[id].conn = e.conn} IN
+    [mm EXCEPT !.notes = [x \in DOMAIN @ |-> IF x \in X THEN ExcuseNotes(@[x]) ELSE @[x]],
+               !.closed = @ \cup {e.conn}]
 
 -----------------------------------------------------------------------------
 \* promotion: the node's engine starts from its replica = the leader's logged holds (the driver promotes a node in sync)
@@ -339,6 +433,7 @@ StepSnap(mm, e) ==
     THEN \* a leading node: its holds are exactly what the history of ITS decisions implies
          LET d == e.node
              Bad == {i \in K : ~Tainted(mm, d, e.keys[i].key) /\ OpenOn(mm, d, e.keys[i].key, 0) = {}
+                               /\ ~MayExp(HoldsOf(mm, d, e.keys[i].key), e.ts)
                                /\ SnapPairs(e.keys[i]) # MonPairs(HoldsOf(mm, d, e.keys[i].key))}
              m1 == Check(mm, Bad = {}, "C10", IF d = mm.ldr THEN "leader-snapshot-differs-from-history" ELSE "promoted-node-snapshot-differs-from-history",
                          [node |-> d, keys |-> SetToSeq({[key |-> e.keys[i].key, snapshot |-> e.keys[i].holds, history |-> HoldsOf(mm, d, e.keys[i].key)] : i \in Bad})])
@@ -355,6 +450,7 @@ StepSnap(mm, e) ==
     ELSE IF "alone" \in DOMAIN e /\ e.alone
     THEN \* the leader is dead: the follower holds nothing the leader's history does not explain
          LET Bad == {i \in K : ~Tainted(mm, mm.ldr, e.keys[i].key) /\ OpenOn(mm, mm.ldr, e.keys[i].key, 0) = {}
+                               /\ ~MayExp(HoldsOf(mm, mm.ldr, e.keys[i].key), e.ts)
                                /\ ~(SnapLids(e.keys[i]) \subseteq {x[1] : x \in MonPairs(HoldsOf(mm, mm.ldr, e.keys[i].key))})}
          IN Check(mm, Bad = {}, "C10", "follower-hold-not-on-leader",
                   [node |-> e.node, keys |-> SetToSeq({[key |-> e.keys[i].key, follower |-> e.keys[i].holds, history |-> HoldsOf(mm, mm.ldr, e.keys[i].key)] : i \in Bad})])
@@ -382,7 +478,14 @@ StepVals(mm, e) ==
 StepEnd(mm, e) ==
     LET U == {id \in DOMAIN mm.reqs : mm.reqs[id].st = "open"}
         keys == {<<mm.reqs[id].dom, mm.reqs[id].key>> : id \in {x \in DOMAIN mm.reqs : mm.reqs[x].cmd \in {"L", "U"}}}
-        m1 == Check(mm, U = {}, "C10", "trace-ends-with-open-requests", [ids |-> SetToSeq(U)])
+        m0 == Check(mm, U = {}, "C10", "trace-ends-with-open-requests", [ids |-> SetToSeq(U)])
+        \* (e) an expiry notice the leader sent down an intact upstream link for a request of a BINARY client that is still
+        \* connected was never handed to that client
+        Lost == {x \in DOMAIN mm.notes : /\ \E i \in 1..Len(mm.notes[x]) : ~mm.notes[x][i].dlv /\ ~mm.notes[x][i].exc /\ mm.notes[x][i].fr.res = EXPRIED
+                                           /\ \E id \in ReqOfUp(mm, x) : /\ mm.reqs[id].proto = "bin" /\ mm.reqs[id].tap /\ mm.reqs[id].role # "leader"
+                                                                          /\ mm.reqs[id].st = "done" /\ mm.reqs[id].conn \notin mm.closed}
+        m1 == Check(m0, Lost = {}, "C10", "notice-not-relayed",
+                    [notices |-> SetToSeq({[upstream_request_id |-> x, rid |-> Min(ReqOfUp(mm, x)), node |-> IF x \in DOMAIN mm.upnode THEN mm.upnode[x] ELSE "", leader |-> mm.notes[x][1].fr] : x \in Lost})])
     IN IF PrintT("FSTAT " \o ToJson([name |-> mm.name, keys |-> Cardinality(keys), tainted |-> Cardinality(keys \cap mm.taint), reqs |-> Cardinality(DOMAIN mm.reqs)]))
        THEN m1 ELSE m1
 
@@ -395,6 +498,7 @@ Step(mm, e) ==
       [] e.e = "unanswered" -> StepUnanswered(mm, e)
       [] e.e = "abandoned"  -> StepAbandoned(mm, e)
       [] e.e = "sendfail"   -> StepAbandoned(mm, e)
+      [] e.e = "closed"     -> StepClosed(mm, e)
       [] e.e \in {"cut", "up_closed"} -> BreakUp(mm, e.node, e.up)
       [] e.e = "gone"       -> [Break(mm, e.node) EXCEPT !.gone = @ \cup {e.node}]
       [] e.e = "back"       -> [mm EXCEPT !.gone = @ \ {e.node}]
